@@ -134,6 +134,11 @@ def impl(case):
             sp = whole.split(case['n_parts'])
             out['jsplit_n'] = [int(p.n_jumps) for p in sp]
             out['jsplit_mr'] = [int(p.minimal_residence) for p in sp]
+            # rates: per label pair the mean over the parts of (jumps of that pair in the part) / (atoms x part duration)
+            df = whole.rates(case['n_parts'])
+            out['rates'] = {f'{a}>{b}': float(r['rates']) for (a, b), r in df.iterrows()}
+            out['rates_parts'] = [{f'{a}>{b}': int(v) for (a, b), v in p.counter().items()} for p in sp]
+            out['rates_denom'] = float(na * traj.total_time / case['n_parts'])
         except ValueError as e:
             if 'No jumps found' not in str(e):
                 raise
@@ -197,6 +202,12 @@ def oracle(case, out):
             break
     if 'jsplit_n' in out and out['jsplit_n'] != [len(p) for p in out['jp']]:
         fs.append(('split/jumps-split', f'Jumps.split gives {out["jsplit_n"]} jumps per part, Jumps(part, minimal_residence={case["mr"]}) of Transitions.split gives {[len(p) for p in out["jp"]]}'))
+    for key, rate in out.get('rates', {}).items():
+        counts = [pc.get(key, 0) for pc in out['rates_parts']]
+        want = float(np.mean(counts)) / out['rates_denom']
+        if abs(rate - want) > 1e-9 * max(abs(want), 1e-300):
+            fs.append(('split/rates-not-mean-of-parts', f'rate of {key} is {rate}, the parts hold {counts} such jumps: mean / (atoms x part duration) = {want}'))
+            break
     if 'jsplit_mr' in out and any(v != case['mr'] for v in out['jsplit_mr']):
         fs.append(('split/jumps-split-settings', f'the parts of Jumps.split use minimal_residence {out["jsplit_mr"]}, the whole uses {case["mr"]}'))
     if out.get('jsplit_raises') and all(len(p) > 0 for p in out['jp']):
